@@ -75,6 +75,12 @@ CHECKS = {
         "families (all ordered attribute choices incl. xmlns and prefixed ones, interleavings of identically/differently named siblings, extras at every position, text alone or before children); the harness compares "
         "NewMapXmlSeq[Reader] with DecodeSeq, MapSeq.Xml byte for byte, XmlIndent / BeautifyXml / NewMapFormattedXmlSeq token-wise, and executes the real round trip.",
    ref="DESIGN.md section 4, C04", technique="TLA+ codec spec with round-trip theorem (TLC), byte-exact spec->code replay"),
+ "C05": dict(
+   text="Character-level TLA+ definitions of XmlEscape / XmlUnescape and of the raw-text well-formedness predicate; TLC enumerates every string of <= N chunks over the five special characters, ';', '#', a letter, "
+        "a blank and the chunks &amp; &#x41; ]]> <![CDATA[ and checks: unescape(escape(s)) = s, the escaped form has no raw special character and every '&' starts an entity (no double escaping), the decoder-side stored value is well formed raw and stable. "
+        "For every string the harness runs element / attribute / mixed positions through Map.Xml, Map.XmlIndent, MapSeq.Xml, MapSeq.XmlIndent in the three escaping modes: exact bytes (encoder-side), decode-back equality, "
+        "well-formed-or-error with the validity check (oracle encoding/xml), reproduction of stored values (decoder-side); the internal escapeChars is bound directly through the hook.",
+   ref="DESIGN.md section 4, C05", technique="TLA+ character-level escaping theorems (TLC, exhaustive strings), spec->code replay with encoding/xml as well-formedness oracle"),
 }
 NOT_YET = "machinery for this property is not built yet in this round (design in DESIGN.md section 4); no claim is made"
 
